@@ -68,6 +68,13 @@ def run(ctx):
             for parity in (0, 1):
                 for coef in ([0.9 * (1 - 1e-13)] + [0.0] * (k - 1), [0.9 * (1 - 1e-13) / k] * k):
                     cases.append({"fn": "newton", "coef": [hexf(x) for x in coef], "parity": parity, "setting": "default", "timeout": 900})
+        # tiny-amplitude targets (every |c_j| <= 1e-8): the protocol must still reproduce them within 1e-10 and report err < crit;
+        # an "is it the zero target?" shortcut with a default tolerance would return the all-zero protocol here
+        for k in ((1, 3, 5) if quick else (1, 2, 3, 5, 8, 13)):
+            for parity in (0, 1):
+                for amp in (1e-8, 3e-9):
+                    coef = gen_target(rng, k, amp)
+                    cases.append({"fn": "newton", "coef": [hexf(x) for x in coef], "parity": parity, "setting": "tiny", "timeout": 900})
         # the same targets held in single / half precision arrays (values rounded to float32/float16 first, so every dtype holds them exactly)
         import struct
         for k in ([1, 2, 3, 6, 12] if quick else [1, 2, 3, 4, 6, 9, 12, 20, 40]):
